@@ -426,8 +426,11 @@ for _n in (1, 2):
                   "l.dest._vals[:, 0] for l in self.outlinks if isinstance(l.dest, TimedCompartment)"],
         ensures=[
             ("C04.junction_is_empty_after_the_flush", "self.vals[0] == 0"),
-            ("C04.flushed_by_stated_proportions",
-             "all(l.dest[0] == old(l.dest[0]) + old(self.vals[0]) * sum(m.parameter.vals[0] for m in self.outlinks if m.dest is l.dest) / sum(m.parameter.vals[0] for m in self.outlinks) for l in self.outlinks)"),
+        ] + [
+            # one clause per outgoing link (smaller solver queries than one conjunction over the links)
+            ("C04.flushed_by_stated_proportions_link%d" % _k,
+             "self.outlinks[%d].dest[0] == old(self.outlinks[%d].dest[0]) + old(self.vals[0]) * sum(m.parameter.vals[0] for m in self.outlinks if m.dest is self.outlinks[%d].dest) / sum(m.parameter.vals[0] for m in self.outlinks)" % (_k, _k, _k))
+            for _k in range(_n)
         ],
         frame_props=["C04", "C10"], defined_props=["C04"])
 
@@ -441,9 +444,12 @@ for _n in (1, 2):
                   "l.dest._vals[:, 0] for l in self.outlinks if isinstance(l.dest, TimedCompartment)"],
         ensures=[
             ("C04.junction_is_empty_after_the_flush", "self.vals[0] == 0"),
-            # stated proportions (scaled down to 1 when they exceed it) to the parameter links, the remainder to the residual link
-            ("C04.flushed_by_stated_proportions_remainder_to_residual",
-             "all(l.dest[0] == old(l.dest[0]) + old(self.vals[0]) * sum((m.parameter.vals[0] / max(1, %s) if m.parameter is not None else max(0, 1 - %s)) for m in self.outlinks if m.dest is l.dest) for l in self.outlinks)" % (_T, _T)),
+        ] + [
+            # stated proportions (scaled down to 1 when they exceed it) to the parameter links, the remainder to the residual link;
+            # one clause per outgoing link
+            ("C04.flushed_by_stated_proportions_remainder_to_residual_link%d" % _k,
+             "self.outlinks[%d].dest[0] == old(self.outlinks[%d].dest[0]) + old(self.vals[0]) * sum((m.parameter.vals[0] / max(1, %s) if m.parameter is not None else max(0, 1 - %s)) for m in self.outlinks if m.dest is self.outlinks[%d].dest)" % (_k, _k, _T, _T, _k))
+            for _k in range(_n)
         ],
         frame_props=["C04", "C10"], defined_props=["C04"])
 
